@@ -729,7 +729,60 @@ pub fn item(cfg: StreamCfg) -> BoxedStrategy<Item> {
 }
 
 pub fn stream(cfg: StreamCfg) -> BoxedStrategy<Vec<Item>> {
-    vec(item(cfg), 0..=cfg.max_items).boxed()
+    (vec(item(cfg), 0..=cfg.max_items), echo_plan()).prop_map(|(items, plan)| echo(items, &plan)).boxed()
+}
+
+/// Repetition plan: which items are repeated where. Independent random items practically never
+/// repeat, yet "the same thing twice in a row" and "back to an earlier value" (A B A) are what a
+/// stream of real output is full of.
+fn echo_plan() -> BoxedStrategy<Vec<(u16, u8)>> {
+    prop_oneof![
+        3 => Just(vec![]),
+        2 => vec((any::<u16>(), 0u8..6), 1..=3),
+    ]
+    .boxed()
+}
+
+/// apply a repetition plan: (position, kind) with kind 0 = repeat the item directly, 1 = repeat it
+/// after its successor (A B A), 2 = repeat the pair (A B A B), 3 = repeat the item three times,
+/// 4 / 5 = the item, a style change undone at once, the item again
+fn echo(mut items: Vec<Item>, plan: &[(u16, u8)]) -> Vec<Item> {
+    for (frac, kind) in plan {
+        if items.is_empty() {
+            break;
+        }
+        let i = (*frac as usize * items.len()) >> 16;
+        let a = items[i].clone();
+        match kind {
+            0 => items.insert(i + 1, a),
+            1 => {
+                let at = (i + 2).min(items.len());
+                items.insert(at, a);
+            }
+            2 => {
+                if i + 1 < items.len() {
+                    let b = items[i + 1].clone();
+                    items.insert(i + 2, a);
+                    items.insert(i + 3, b);
+                } else {
+                    items.insert(i + 1, a);
+                }
+            }
+            3 => {
+                items.insert(i + 1, a.clone());
+                items.insert(i + 2, a);
+            }
+            _ => {
+                // the item, a style change that is undone at once (there and back again with nothing in
+                // between), the item again: `A ESC[31m ESC[39m A` / `A ESC[44m ESC[49m A`
+                let (set, unset) = if *kind == 4 { (31, 39) } else { (44, 49) };
+                items.insert(i + 1, Item::Sgr(vec![Group::Single { code: set, zeros: 0 }]));
+                items.insert(i + 2, Item::Sgr(vec![Group::Single { code: unset, zeros: 0 }]));
+                items.insert(i + 3, a);
+            }
+        }
+    }
+    items
 }
 
 pub fn render(items: &[Item]) -> Vec<u8> {
@@ -899,8 +952,9 @@ pub fn sgr_item(cfg: SgrStreamCfg) -> BoxedStrategy<Item> {
 /// underline-kind replacements removed (second component = how many groups
 /// were removed).
 pub fn sgr_stream(cfg: SgrStreamCfg) -> BoxedStrategy<(Vec<Item>, u64)> {
-    vec(sgr_item(cfg), 0..=cfg.max_items)
-        .prop_map(|items| {
+    (vec(sgr_item(cfg), 0..=cfg.max_items), echo_plan())
+        .prop_map(|(items, plan)| {
+            let items = echo(items, &plan);
             // strings that are not terminated would swallow what follows; that
             // is fine for the oracle (the reference parser sees the same) but
             // makes cases trivial, so terminate dangling strings with BEL/ST
